@@ -13,6 +13,7 @@ mod closest;
 mod ray;
 mod rigid;
 mod section;
+mod flatten;
 
 pub struct State {
     pub slots: std::collections::HashMap<String, Box<dyn std::any::Any>>,
@@ -34,6 +35,7 @@ fn dispatch(rec: &Value, st: &mut State) -> Value {
         "ray" => ray::exec(rec, st),
         "rigid" => rigid::exec(rec, st),
         "section" => section::exec(rec, st),
+        "flatten" => flatten::exec(rec, st),
         _ => json!({"unknown_module": true}),
     }
 }
